@@ -25,12 +25,11 @@ Definition out_eqb {A} := @C05.out_eqb A.
 
 (* ---- the specification, on the implementation's observables ---- *)
 Section Spec.
-  Variable isprint : N -> bool.
   Variable pweight : str -> outcome wt.
   Variable canon : str -> option str.
   Variable glob_ok : str -> bool.
 
-  Definition expr := intent_expressible isprint pweight canon glob_ok.
+  Definition expr := intent_expressible pweight canon glob_ok.
 
   (* (1) an accepted command denotes the registration it was made from; a command made from an
          expressible registration is accepted *)
@@ -76,15 +75,22 @@ Section Spec.
 End Spec.
 
 Inductive case :=
-(* np: the non-printable runes >= 128 among the runes of the tags (strconv.IsPrint); urls / badglobs /
-   wlits: url.Parse, glob.Compile, strconv.ParseFloat on the strings of the case (as in Check/C05.v) *)
-| CRegs (env : env_t) (prefix : str) (np : list N)
+(* urls / badglobs / wlits: url.Parse, glob.Compile, strconv.ParseFloat on the strings of the case
+   (as in Check/C05.v) *)
+| CRegs (env : env_t) (prefix : str)
         (urls : list (str * option str)) (badglobs : list str) (wlits : list (str * outcome wt))
         (regs : list reg)
         (impl_cmds : list (list str))                     (* routecmd.build per entry *)
         (impl_defs : list (list (outcome (list def))))    (* route.Parse per command *)
         (impl_tbl : outcome C05.tblobs)                   (* route.NewTable of the whole text *)
-(* the library models on their own *)
+(* one round of the real ServiceMonitor.makeConfig against a fake catalog: [regs] are the catalog
+   entries of the passing instances whose catalog lookup succeeded (services whose lookup fails
+   contribute nothing), [impl] the text it returned *)
+| CConfig (env : env_t) (prefix : str)
+          (urls : list (str * option str)) (badglobs : list str) (wlits : list (str * outcome wt))
+          (regs : list reg) (impl : str)
+(* the library models on their own (strconv.Quote: the model of the code before d16ce3d; np: the
+   non-printable runes >= 128 of s, by strconv.IsPrint) *)
 | CExpand (env : env_t) (s impl : str)
 | CQuote (np : list N) (s impl : str)
 | CUrlTag (env : env_t) (prefix s : str) (impl : option (str * str)).
@@ -93,13 +99,12 @@ Definition isprint_of (np : list N) (r : N) : bool := negb (existsb (N.eqb r) np
 
 Definition check_case (c : case) : N :=
   match c with
-  | CRegs env prefix np urls bad wl regs icmds idefs itbl =>
-      let isp := isprint_of np in
+  | CRegs env prefix urls bad wl regs icmds idefs itbl =>
       let canon := C05.canon_of urls in
       let gl := C05.glob_of bad in
       let pw := C05.pweight_of wl in
       let ints := map (intents env prefix) regs in
-      let mcmds := map (map (render_intent isp)) ints in
+      let mcmds := map (build pw canon gl env prefix) regs in
       let mdefs := map (map (parse pw)) mcmds in
       let text := config_text (sort_lines_desc (concat mcmds)) in
       let mtbl := C05.obs_out (new_table pw canon gl text) in
@@ -108,17 +113,29 @@ Definition check_case (c : case) : N :=
                   && out_eqb C05.tbl_eqb itbl mtbl
                   && C05.wlits_ok wl in
       let all := concat ints in
+      (* (1) the emitted commands, in order, denote the entry's routing tags; a tag whose command is
+             missing must be inexpressible; (2) the table *)
       let spec := (fix go (iss : list (list intent)) (oss : list (list (outcome (list def)))) : bool :=
                      match iss, oss with
                      | [], [] => true
-                     | is :: iss', os :: oss' => denotes_all isp pw canon gl is os && go iss' oss'
+                     | is :: iss', os :: oss' => denotes_all pw canon gl is os && go iss' oss'
                      | _, _ => false
                      end) ints idefs
-                  && table_spec isp pw canon gl all itbl in
-      let region := if existsb (F_C14_blocking pw canon gl) all then Some 1
-                    else if existsb (F_C14_altering isp pw canon gl) all then Some 2
-                    else None in
+                  && table_spec pw canon gl all itbl in
+      let region := if existsb (F_C14_altering pw canon gl) all then Some 2 else None in
       verdict same spec region (Nat.leb 2 (length all))
+  | CConfig env prefix urls bad wl regs impl =>
+      let canon := C05.canon_of urls in
+      let gl := C05.glob_of bad in
+      let pw := C05.pweight_of wl in
+      let cmds := map (build pw canon gl env prefix) regs in
+      let text := config_text (sort_lines_desc (concat cmds)) in
+      let same := beq impl text && C05.wlits_ok wl in
+      (* the pushed text is accepted by NewTable and holds every expressible registration *)
+      let all := concat (map (intents env prefix) regs) in
+      let spec := table_spec pw canon gl all (C05.obs_out (new_table pw canon gl impl)) in
+      let region := if existsb (F_C14_altering pw canon gl) all then Some 2 else None in
+      verdict same spec region (existsb (fun c => match c with [] => true | _ => false end) cmds)
   | CExpand env s impl =>
       let ok := beq impl (expand env s) in
       verdict ok ok None (existsb (N.eqb 36) s)
